@@ -327,6 +327,10 @@ pub struct Scripts<E: Elem> {
     pub copy: F<fn(L<E>) -> L<E>>,
     pub iter: F<fn(L<E>) -> ()>,
     pub join: Option<F<fn(L<E>, RotoString) -> RotoString>>,
+    pub eq_copy: F<fn(L<E>) -> bool>,
+    pub copy_eq: F<fn(L<E>) -> bool>,
+    pub contains_own: F<fn(L<E>) -> bool>,
+    pub index_own: F<fn(L<E>) -> Option<u64>>,
 }
 
 pub fn script_text<E: Elem>() -> String {
@@ -353,6 +357,10 @@ fn s_index(l: List[{t}], v: {t}) -> u64? {{ l.index(v) }}
 fn s_eq(a: List[{t}], b: List[{t}]) -> bool {{ a == b }}
 fn s_copy(l: List[{t}]) -> List[{t}] {{ let r = []; for x in l {{ r.push(x); }} r }}
 fn s_iter(l: List[{t}]) {{ for x in l {{ {emit} }} }}
+fn s_eq_copy(l: List[{t}]) -> bool {{ let r = []; for x in l {{ r.push(x); }} l == r }}
+fn s_copy_eq(l: List[{t}]) -> bool {{ let r = []; for x in l {{ r.push(x); }} r == l }}
+fn s_contains_own(l: List[{t}]) -> bool {{ match l.get(0) {{ Some(x) => l.contains(x), None => false, }} }}
+fn s_index_own(l: List[{t}]) -> u64? {{ if l.len() == 0 {{ None }} else {{ match l.get(l.len() - 1) {{ Some(x) => l.index(x), None => None, }} }} }}
 "
     );
     if E::JOIN {
@@ -388,6 +396,10 @@ pub fn load<E: Elem>(pkg: &mut Package<NoCtx>) -> Result<Scripts<E>, String> {
         copy: g!("s_copy"),
         iter: g!("s_iter"),
         join: if E::JOIN { Some(g!("s_join")) } else { None },
+        eq_copy: g!("s_eq_copy"),
+        copy_eq: g!("s_copy_eq"),
+        contains_own: g!("s_contains_own"),
+        index_own: g!("s_index_own"),
     })
 }
 
@@ -600,6 +612,35 @@ impl<E: Elem> Real<E> {
                 Res::Text(j.call(self.l(h).clone(), RotoString::from(SEP)).to_string())
             }
             Op::Dbg { h } => Res::Text(format!("{:?}", self.l(h))),
+            Op::EqCopy { h } => {
+                let l = self.l(h);
+                if rust {
+                    let c: L<E> = List::from(l.to_vec());
+                    Res::Seq(vec![(*l == c) as u8, (c == *l) as u8])
+                } else {
+                    Res::Seq(vec![s.eq_copy.call(l.clone()) as u8, s.copy_eq.call(l.clone()) as u8])
+                }
+            }
+            Op::ContainsOwn { h } => {
+                let l = self.l(h);
+                Res::Bool(if rust {
+                    match l.get(0) {
+                        Some(x) => l.contains(&x),
+                        None => false,
+                    }
+                } else {
+                    s.contains_own.call(l.clone())
+                })
+            }
+            Op::IndexOwn { h } => {
+                let l = self.l(h);
+                Res::OptNum(if rust {
+                    let n = l.len();
+                    if n == 0 { None } else { l.get(n - 1).and_then(|x| l.index(&x)).map(|i| i as u64) }
+                } else {
+                    s.index_own.call(l.clone())
+                })
+            }
         }
     }
 }
